@@ -53,6 +53,9 @@ func TestVerif_C06_Real(t *testing.T) {
 	// more addresses with two full batches than the writer's pop-rank list holds (10 000), then an address with
 	// exactly one full batch and a short tail when the periodic flush runs
 	scs = append(scs, scenario{"rank-list-overflow", []int{1008, 2000, 150}, 100_025, 10_001})
+	// more distinct addresses than the pubkey index holds when it is built for the writer's default of one million
+	// items (100 buckets, each of which must be hashed without collision into 24 bits)
+	scs = append(scs, scenario{"two-million-addresses", []int{1, 2, 1000, 1001}, 2_000_000, 0})
 	if vkit.Thorough() {
 		scs = append(scs, scenario{"multiples", []int{4000, 5000, 5001, 7999, 8000, 10000}, 0, 0},
 			scenario{"periodic-flush-twice", []int{1, 99, 100, 101, 1000, 2000, 2001}, 201_000, 0})
